@@ -75,6 +75,17 @@ def creation_tasks():
         T.append({"task": "creation", "fn": "logspace", "args": args, "kw": dict(kw, base=2.0)})
     for args, kw in (([1, 1000, 4], {}), ([1.0, 256.0, 9], {"dtype": "float32"}), ([2, 32, 5], {"endpoint": False})):
         T.append({"task": "creation", "fn": "geomspace", "args": args, "kw": kw})
+    # endpoints that carry their own precision (NumPy scalars / arrays of a narrow float or an integer dtype): the result dtype is NumPy's
+    for edt, arr in itertools.product(("float32", "float16", "int32", "float64"), (False, True)):
+        s0 = {"np": edt, "v": [1, 2] if arr else 1}
+        s1 = {"np": edt, "v": [4, 16] if arr else 8}
+        for kw in ({}, {"endpoint": False}, {"dtype": "float32"}):
+            T.append({"task": "creation", "fn": "linspace", "args": [s0, s1, 4], "kw": kw})
+            T.append({"task": "creation", "fn": "logspace", "args": [s0, s1, 4], "kw": dict(kw, base=2.0)})
+            T.append({"task": "creation", "fn": "geomspace", "args": [s0, s1, 4], "kw": kw})
+        T.append({"task": "creation", "fn": "linspace", "args": [s0, 8.0, 4], "kw": {}})
+        T.append({"task": "creation", "fn": "arange", "args": [s0, s1] if not arr else [{"np": edt, "v": 5}], "kw": {}})
+        T.append({"task": "creation", "fn": "full", "args": [[2], {"np": edt, "v": 3}], "kw": {}})
     for args, kw in (([3], {}), ([2, 3], {}), ([3, 3, 1], {}), ([3], {"k": -1, "dtype": "float32"}), ([0], {}), ([2], {"dtype": "int8"})):
         T.append({"task": "creation", "fn": "eye", "args": args, "kw": kw})
     for n, dt in itertools.product((0, 1, 3), (None, "float32", "int32")):
